@@ -293,7 +293,7 @@ def gen_script(rng, option, space_kind=None, dyadic=None, policy=None, static=Fa
             # no (near-)coincidence of steps and multiples, so that floor(t/interval) is unambiguous in doubles
             kw["sampling_interval"] = dt * rng.choice([1.4142135623, 0.6180339887, 2.7182818284, 7.3890560989, 1.0001000123])
     if mode is None:
-        mode = rng.choice(["auto", "auto", "none", "redist", "Poisson"]) if stochastic else rng.choice(["auto", "none"])
+        mode = rng.choice(["auto", "auto", "none", "redist", "Poisson"]) if stochastic else rng.choice(["auto", "none", "none", "redist", "Poisson"])
     kw["init_state_processing"] = mode
     tu = "s"
     su = "s"
@@ -330,6 +330,25 @@ def script_model_json(meta, policy, space_kind, clock=(), stop=None, raises=Fals
             "tsamples": [rstr(v) for v in meta.get("tsamples", [])], "interval": rstr(meta.get("interval", 1.0)),
             "tmax": rstr(meta.get("tmax", -1.0)), "dt": rstr(meta.get("dt", 1.0)), "clock": [rstr(v) for v in clock],
             "stop": stop, "size": int(meta.get("size", 0)), "raises": bool(raises)}
+
+
+def init_failures(x):
+    """from the record of the wrapped engineexport_initialize_* call of a setup / simulate result: every buffer has the
+    length of the count passed alongside, and the native code accepted the script (return code 0).
+    Returns [(key, what, impl, expected)]"""
+    rec = x.get("init")
+    bad = []
+    if not rec:
+        return bad
+    for b in rec.get("bad", []):
+        bad.append(("buffer-length:%s" % b["arg"], "%s is handed a %s buffer of %r entries with the count %r: the engine reads %r entries"
+                    % (rec["fn"], b["arg"], b["buffer_length"], b["count_passed"], b["count_passed"]), b["buffer_length"], b["count_passed"]))
+    if rec.get("inspect_error"):
+        bad.append(("init-arguments", "the arguments of %s could not be inspected (%s): signature changed?" % (rec["fn"], rec["inspect_error"]), rec["inspect_error"], None))
+    if rec.get("rc", 0) != 0 and "raised" not in x:
+        bad.append(("native-init-rc", "%s returned error code %d for a script the Python setters accepted, and setup() went on (the object is "
+                    "used without having been initialised)" % (rec["fn"], rec["rc"]), rec["rc"], 0))
+    return bad
 
 
 def fmatch(a, b, f=1.0, rel=1e-12):
